@@ -3,9 +3,9 @@ from . import common as C
 from . import numgen
 
 MANIFEST = dict(
-   technique="Lean 4 proof (exactness of compareNumeric/cmpIntFloat/multipleOfInts over all of Int and all dyadic floats) + differential correspondence of the model against pkg/validate and real numeric schemas",
-   text="Theorems c16_cmp / c16_int_cmp / c16_int_float_cmp / c16_multiple_int prove, for every operand pair of every Go numeric kind, that the transcribed comparison and integer-multiple algorithms equal the mathematical relation (NaN unordered). The hand-written model is tied to /repo by running both on exhaustive 8-bit (thorough: 16-bit) enumerations and a 2^k-boundary grid over all 144 kind pairs, directly and through real schemas.",
-   note="Trusted: Lean kernel; axioms propext/Classical.choice/Quot.sound only; the Go harness and comparer; Go float64 operators and math.Trunc being IEEE-754. Float MultipleOf (documented epsilon rule) is not modelled. The model is a hand transcription validated on generated cases, not for all inputs.",
+   technique="Lean 4 proof (exactness of compareNumeric/cmpIntFloat/multipleOfInts over all of Int and all dyadic floats) + translator (go/ast over pkg/validate, internal/checks, types/integer.go, types/float.go -> Gen/NumDispatch.lean, regenerated on every run; the model is proved equal to the interpreted tables) + differential correspondence of the model against pkg/validate and real numeric schemas",
+   text="Theorems c16_cmp / c16_int_cmp / c16_int_float_cmp / c16_multiple_int prove, for every operand pair of every Go numeric kind, that the transcribed comparison and integer-multiple algorithms equal the mathematical relation (NaN unordered). The model is tied to /repo (a) by translation: toNum_table, compareNumeric_table, cmpIntFloat_table, cmpOps_table, methods_table and the structure fingerprints are proved over the dispatch table regenerated from the source, so a re-routed arm, an edited range constant, a changed sign test or a re-wired schema method changes a proof obligation; (b) by running both on exhaustive 8-bit (thorough: 16-bit) enumerations and a 2^k-boundary grid over all 144 kind pairs, directly and through real schemas.",
+   note="Trusted: Lean kernel; axioms propext/Classical.choice/Quot.sound only; the Go harness and comparer; Go float64 operators and math.Trunc being IEEE-754. Float MultipleOf (documented epsilon rule) is not modelled (its text and float literals are fingerprinted). cmpInts/multipleOfInts/cmpFloats are tied by text fingerprint and generated cases; the translator harness/numgen is trusted.",
    design="DESIGN.md §5 C16")
 
 MODULES = ["Gozod.Proofs.C16", "Gozod.Proofs.C16Dispatch"]
